@@ -41,7 +41,7 @@ PARTIAL = ['C03_int_text_partial / C03_fasta_partial / C03_write_pieces_partial 
            'C03_from_data_canonical_partial: tables in table_ok (rectangular, FASTA: [name; sequence] rows, FASTQ: [name; seq; qual] rows; '
            'not VCFEntry with Union INFO: that variant is correspondence-only)',
            'read-back (C03_parse_serialise_*, C03_roundtrip_*): text cells without TAB/LF (FASTA: sequence without ">" and LF, name '
-           'without LF; VCF: first cell not starting with "#"); identifier columns not empty in every row (known finding)',
+           'without LF; VCF: first cell not starting with "#")',
            'C03_model_ok_spec_ok*: float-free tables (spec_ok itself compares floats to 1e-12; no theorem about str_to_float)']
 PER_FILE = 40
 
@@ -325,10 +325,11 @@ def generate(tier, seed):
         fmt = rr_fmts[i % len(rr_fmts)]
         m = rng.choice([2, 3, 4, 5, 6, 8])
         src_rows = [g.row(fmt) for _ in range(m)]
-        for r in src_rows:                       # identifiers are never empty here (that is the known reader finding)
-            for j, kk in enumerate(KINDS[fmt]):
-                if kk == 'D' and r[j] == '':
-                    r[j] = 'n%d' % j
+        if i % 9 == 4:                           # an identifier column that is empty in every source row
+            for r in src_rows:
+                for j, kk in enumerate(KINDS[fmt]):
+                    if kk == 'D' and j > 0:
+                        r[j] = ''
         sel = []                                 # list of chunks, each a list of source row numbers
         for _ in range(rng.choice([1, 2, 2, 3, 4])):
             kind = rng.choice(['slice', 'slice', 'mask', 'perm', 'empty'])
@@ -364,6 +365,22 @@ def generate(tier, seed):
         c['src_rows'] = src_rows
         c['src_index'] = src_index
         cases.append(c)
+    # (8) identifier (SequenceID) columns that are empty in EVERY row must round-trip (repaired in /repo 58b75b9)
+    for i in range(24 if not thorough else 120):
+        fmt = ['bed6', 'bed6', 'bed3', 'narrowpeak', 'bed12', 'fasta', 'fastq', 'gtf'][i % 8]
+        n = rng.choice([1, 2, 3, 4])
+        alpha = alpha_of(fmt)
+        rows = [g.row(fmt, alpha, 80) for _ in range(n)]
+        dcols = [j for j, kk in enumerate(KINDS[fmt]) if kk == 'D']
+        which = dcols if i % 3 == 0 else [dcols[-1]]          # all identifier columns / the last one (BED name)
+        for r in rows:
+            for j in which:
+                r[j] = ''
+        if fmt == 'fasta':
+            for r in rows:
+                r[1] = r[1] or 'ACGT'
+        sizes = rng.choice(compositions(n))
+        cases.append(_mk(fmt, rows, _hist(HKINDS[i % len(HKINDS)], sizes, rng), gz=(i % 3 == 0), alpha=alpha, wbt=(i % 2 == 0)))
     # (5) exhaustive small scope (thorough): bed3 / bed6, n <= 3, field alphabet of 4 symbols, width <= 3, all compositions
     if thorough:
         sym = ['', 'a', 'bc', 'def']
@@ -508,6 +525,13 @@ def observe(case):
             errtype = type(e).__name__
             err = {'AssertionError': 1, 'KeyError': 2}.get(errtype, 9)
             errtype += ': ' + str(e)[:120]
+        # writing must not change the caller's table (e.g. the VCF POS+1 applied in place to a shared array)
+        if err == 0 and rows and variant in ('', 'str') and case['alpha'] == 'ascii':
+            try:
+                if not _rows_match(case, rows, _table_rows(full, cls, kinds)):
+                    err, errtype = 8, 'InputMutated: the table handed to write() differs from what it was before the write'
+            except Exception as e:
+                err, errtype = 8, 'InputMutated: cannot re-read the written table: %s' % type(e).__name__
         if os.path.exists(path):
             raw = open(path, 'rb').read()
             try:
@@ -760,7 +784,7 @@ F_UNION = 'C03-vcfentry-union-info-keyerror'
 F_GZAPP = 'C03-gzip-append-header-again'
 F_STREAM = 'C03-stream-of-empty-chunks-no-header'
 F_EMPTYID = 'C03-all-empty-identifier-column-unreadable'
-F_ORDER = [F_INT, F_FASTA, F_UNION, F_GZAPP, F_STREAM, F_EMPTYID]
+F_ORDER = [F_INT, F_FASTA, F_UNION, F_GZAPP, F_STREAM]      # all repaired in /repo; kept as regression switches of the mirror
 
 
 def _int_text(n, pinned):
@@ -843,9 +867,6 @@ def _ref_run(case, T):
     kinds = KINDS[case['fmt']]
     read_ok = err == 0
     if read_ok and rows:
-        if F_EMPTYID in T and case['fmt'] not in ('fasta', 'fastq') and \
-                any(k == 'D' and all(r[j] == '' for r in rows) for j, k in enumerate(kinds)):
-            read_ok = False
         if case['fmt'] == 'fasta' and F_FASTA in T and any(len(r[1]) == 0 for r in rows):
             read_ok = False
     if read_ok and has_header:
@@ -920,7 +941,7 @@ def _explaining_set(case, o):
 # defects that the model at /repo HEAD still has (its switch is on the as-is side).  A violating case is attributed to
 # a finding only if it is explained by ACTIVE defects alone: the mirror then behaves exactly like the Coq model, so a
 # case on which the implementation disagrees with the model can never be swallowed by a finding.
-ACTIVE = {F_EMPTYID}
+ACTIVE = set()      # no recorded defect is left at /repo HEAD: every violation is reported
 
 
 def finding(case, o):
